@@ -49,6 +49,12 @@ def image_set():
     b = bytearray(v['ssd']); b[256 + 5] = 0xFF; im['h_count.ssd'] = bytes(b)
     b = bytearray(v['hfe']); b[1024 + 2000] ^= 0xFF; im['h_flux.hfe'] = bytes(b)
     b = bytearray(v['mfm']); b[600] ^= 0x10; im['h_flux.mfm'] = bytes(b)
+    from checks import c06
+    for cont, ext in (('hfe-fm', 'hfe'), ('hfe-mfm', 'hfe'), ('mfm', 'mfm')):
+        for how in ('data-crc', 'id-crc', 'data-mark', 'deleted-bad-crc'):
+            spt = 10 if cont == 'hfe-fm' else 18
+            data, _ = c06.build_damaged(cont, 2, spt, {(1, 3)} if how != 'data-mark' else {(1, spt - 1)}, how)
+            im['h_%s_%s.%s' % (cont.replace('-', ''), how.replace('-', ''), ext)] = data
     im['h_bad.ssd.gz'] = images.gz(v['ssd'])[:-5]
     b = bytearray(v['mmb']); b[16 + 15] = 0x55; im['h_status.mmb'] = bytes(b)
     im['h_empty.dsd'] = b''
